@@ -74,6 +74,9 @@ func suiteIndexScan(c *Ctx) error {
 		// escaped backslashes): whatever the indexer stores as a pattern has to be found again in the literal
 		p.Funcs = append(p.Funcs, &GFunc{Name: "QuotedLiterals", Family: "quoted-literals", Params: []GParam{{"x", TInt}}, Results: []GType{TStr},
 			Body: []GStmt{SRaw{"§cmd§ := \"\\\"C:\\\\\\\\ProgramData\\\\\\\\agent\\\\\\\\run.exe\\\"\"\n§cfg§ := \"'{\\\"k\\\":\\\"v\\\\n\\\"}'\"\nif §x§ > 2 {\n\treturn §cmd§ + \"--serve\"\n}\nreturn §cfg§ + \"`tick`\""}}})
+		// literals with terminal escapes, zero-width joiners and bidi marks INSIDE them
+		p.Funcs = append(p.Funcs, &GFunc{Name: "EscapeLiterals", Family: "escape-literals", Params: []GParam{{"x", TInt}}, Results: []GType{TStr},
+			Body: []GStmt{SRaw{"§warn§ := \"\\x1b[1;31m[!] beacon failed\\x1b[0m\"\n§fam§ := \"fam:\\U0001F468\\u200d\\U0001F469\\u200d\\U0001F467 ok\\u202e\"\nif §x§ > 2 {\n\treturn §warn§ + \"retry\"\n}\nreturn §fam§ + \"done-marker\""}}})
 		// long literals made of multi-byte runes: a pattern cut at a byte offset can end inside a rune
 		p.Funcs = append(p.Funcs, &GFunc{Name: "LongLiterals", Family: "long-literals", Params: []GParam{{"x", TInt}}, Results: []GType{TStr},
 			Body: []GStmt{SRaw{"§note§ := \"" + strings.Repeat("您的文件已被加密请支付赎金", 9) + "\"\n§tail§ := \"é" + strings.Repeat("ü", 140) + "\"\nif §x§ > 2 {\n\treturn §note§ + \"--id\"\n}\nreturn §tail§ + \"contact-us\""}}})
